@@ -1,25 +1,64 @@
 """C01 — evaluating a function returns the polynomial's mathematical value."""
+from common import f64
 from gen import poly as G
 
 PROP = "C01"
 RUNNER = ("RunC01", "run_C01")
 COQ_TARGETS = ["theories/RunC01.vo"]
 AUTHORITY = ("C01_sound / C01_missing (coq/props/C01.v): the model's value is the value of the represented "
-             "polynomial for every valuation agreeing with the state, and evaluation fails iff an occurring id has no value")
-RULE = ("dyadic stream: random polynomials (degree<=4, <=8 monomials, ids from a pool of <=6 incl. ids up to 2^62) "
+             "polynomial for every valuation agreeing with the state, and evaluation fails iff an occurring id has no value; "
+             "C01_rounding_bound / C01_rounding_binary64: the evaluation with every operation rounded (relative error <= u) is "
+             "within ((1+u)^K - 1) * sum|c|prod|x| of the exact value; the SDK equals the 53-bit round-to-nearest-even evaluation")
+RULE = ("float stream: lin/quad/poly messages with arbitrary 53-bit binary64 coefficients and values, compared bit for bit "
+        "with the model's rounded evaluation and against the proved bound; dyadic stream: random polynomials (degree<=4, <=8 monomials, ids from a pool of <=6 incl. ids up to 2^62) "
         "rendered in every variant able to hold them, normalised or not (split/repeated/zero terms, swapped "
         "row/column, absent linear part, unsorted monomial ids); state covers all ids (+extras); missing stream "
         "removes each occurring id in turn. non-trivial = function has >=1 term with a variable; distinct by (op,input)")
-TRUSTED = ["hand-written model coq/theories/Eval.v of evaluate.rs:25-255 (tied to the code by this correspondence only)",
+TRUSTED = ["hand-written models coq/theories/Eval.v (exact) and FEval.v / F64.v (rounded, order of operations of evaluate.rs:25-255) "
+           "(tied to the code by this correspondence only)",
            "f64 -> exact rational decoding in Num.v (f64_of_bits)"]
-ASSUMPTIONS = ["all coefficients/values are small dyadic rationals so every f64 operation of the SDK is exact; "
-               "rounding on general floats is not covered by a theorem (see planned_not_proven)"]
-PLANNED = ["C01_rounding_bound (float layer, Tier B)"]
+ASSUMPTIONS = ["dyadic streams: all coefficients/values are small dyadic rationals so every f64 operation of the SDK is exact",
+               "float stream: arbitrary 53-bit mantissas, exponents in [-24,24] (values [-8,8]), so that no intermediate is "
+               "subnormal or overflows; there the SDK must equal the model's round-to-nearest-even evaluation bit for bit"]
+PLANNED = []
+
+
+def rand_f64(rng, emin=-24, emax=24, p_small=0.2):
+    """an arbitrary finite binary64 of moderate magnitude: full 52-bit random mantissa"""
+    if rng.random() < p_small:
+        return float(rng.randint(-9, 9))
+    m = 1.0 + rng.getrandbits(52) / float(2 ** 52)
+    return (-1.0 if rng.random() < 0.5 else 1.0) * m * 2.0 ** rng.randint(emin, emax)
+
+
+def float_case(rng):
+    """a function message with arbitrary binary64 coefficients at a state with arbitrary values"""
+    pool = G.ids_pool(rng, rng.randint(1, 5))
+    kind = rng.choice(["lin", "quad", "quad", "poly", "poly"])
+    nt = rng.randint(1, 8)
+    if kind == "lin":
+        fn = ["lin", [[[rng.choice(pool), f64(rand_f64(rng))] for _ in range(nt)], f64(rand_f64(rng))]]
+    elif kind == "quad":
+        rows = [rng.choice(pool) for _ in range(nt)]
+        cols = [rng.choice(pool) for _ in range(nt)]
+        vals = [f64(rand_f64(rng)) for _ in range(nt)]
+        lin = None
+        if rng.random() < 0.7:
+            lin = [[[rng.choice(pool), f64(rand_f64(rng))] for _ in range(rng.randint(0, 4))], f64(rand_f64(rng))]
+        fn = ["quad", [rows, cols, vals, [lin] if lin is not None else []]]
+    else:
+        terms = [[[rng.choice(pool) for _ in range(rng.randint(0, 4))], f64(rand_f64(rng))] for _ in range(nt)]
+        fn = ["poly", terms]
+    st = [[i, f64(rand_f64(rng, -8, 8))] for i in sorted(G.fn_ids(fn))]
+    return fn, st
 
 
 def gen(rng, tier):
     n = 400 if tier == "quick" else 6000
     cases = []
+    for k in range(n // 2):
+        fn, st = float_case(rng)
+        cases.append({"op": "evaluate_f", "input": [fn, st], "stream": "float/" + fn[0]})
     for k in range(n):
         pool = G.ids_pool(rng, rng.randint(1, 6))
         p = G.rand_poly(rng, pool, max_deg=rng.choice([0, 1, 1, 2, 2, 2, 3, 4]))
